@@ -133,6 +133,28 @@ pub fn run(ctx: &Ctx) -> Result<()> {
 		*stats.entry("suspending_runs".into()).or_insert(0) += 6;
 		*stats.entry("long_runs".into()).or_insert(0) += 6;
 	}
+	// the operators in use: TileConverter::process_stream (what `convert` recompresses with) on streams with slow tiles
+	// (large, incompressible) between runs of identical small tiles: every output must decode to its own input
+	{
+		use versatiles_container::tile_converter::TileConverter; use versatiles_core::utils::decompress; use versatiles_core::types::TileCompression;
+		let rt8 = tokio::runtime::Builder::new_multi_thread().worker_threads(8).enable_all().build()?;
+		let mut cases = 0u64;
+		'conv: for round in 0..(if ctx.thorough { 40 } else { 8 }) {
+			let mut items: Vec<(TileCoord3, Blob)> = Vec::new();
+			let smalls: Vec<Vec<u8>> = (0..3).map(|k| vec![k as u8 + 1; 20 + k * 7]).collect();
+			for i in 0..400u32 { let data = if i % 23 == 5 { rng.bytes(150_000 + (i as usize % 7) * 10_000) } else { smalls[((i / 6) % 3) as usize].clone() }; items.push((TileCoord3 { x: i % 64, y: i / 64, z: 8 }, Blob::from(data))); }
+			let expect: std::collections::HashMap<(u32, u32), Vec<u8>> = items.iter().map(|(c, b)| ((c.x, c.y), b.as_slice().to_vec())).collect();
+			let target = if round % 2 == 0 { TileCompression::Gzip } else { TileCompression::Brotli };
+			let conv = TileConverter::new_tile_recompressor(&TileCompression::Uncompressed, &target, false)?;
+			let out_items: Vec<(TileCoord3, Blob)> = rt8.block_on(async { conv.process_stream(TileStream::from_vec(items)).collect().await });
+			cases += 1;
+			let desc = format!("TileConverter::process_stream Uncompressed -> {target:?} over 400 tiles (runs of identical small tiles, a 150 KB tile every 23rd), 8 workers, round {round}");
+			if out_items.len() != expect.len() { viol.push(V { kind: "in-use", input: desc, detail: format!("{} outputs for {} inputs", out_items.len(), expect.len()) }); break 'conv; }
+			for (c, b) in &out_items { let back = decompress(b.clone(), &target).map(|x| x.into_vec()).unwrap_or_default();
+				if expect.get(&(c.x, c.y)) != Some(&back) { viol.push(V { kind: "in-use", input: desc.clone(), detail: format!("the output at {}/{}/{} decodes to {} bytes that are not its input ({} bytes)", c.z, c.x, c.y, back.len(), expect.get(&(c.x, c.y)).map_or(0, |v| v.len())) }); break 'conv; } }
+		}
+		stats.insert("convert_stream_runs".into(), cases);
+	}
 	// the operators in use: from_debug generates its stream with from_coord_iter_parallel
 	{ let mut cases = 0u64; for (desc, detail) in crate::mvt::debug_stream_mismatches(ctx.thorough, &mut cases)? { viol.push(V { kind: "in-use", input: desc, detail }); } stats.insert("debug_stream_runs".into(), cases); }
 	stats.insert("reordered_runs".into(), reordered);
